@@ -16,6 +16,7 @@ package sched
 import (
 	"context"
 	"fmt"
+	"strings"
 	"sync"
 	"sync/atomic"
 	"time"
@@ -39,7 +40,8 @@ type Op struct {
 // Choice is one schedule element.
 type Choice struct {
 	Actor int    `json:"a"`
-	Kind  string `json:"k"` // go | cancel | storeFail | storePanic
+	Kind  string `json:"k"`            // go | cancel | storeFail | storePanic
+	At    string `json:"at,omitempty"` // the point the actor is parked at (or the site it is blocked in)
 }
 
 func (c Choice) String() string { return fmt.Sprintf("%d:%s", c.Actor, c.Kind) }
@@ -68,7 +70,8 @@ type Record struct {
 	Site   string        // blocked: where
 	Obs    *Obs          // quiesce
 	Clock  int64
-	Op     int // index into the actor's script
+	Op     int   // index into the actor's script
+	Oplog  []*Ev // commit.published / watch.locked: the oplog as the hook's goroutine sees it (PeekOplog)
 }
 
 // Chooser picks the next schedule element among the enabled ones.
@@ -111,6 +114,7 @@ type Controller struct {
 	AllowStore  bool
 	MaxSteps    int
 	StallLimit  time.Duration
+	PeekOplog   bool // record the oplog at commit.published / watch.locked (watch stream)
 	Free        bool // free-running stress: hooks never park, random short sleeps
 	freeRand    atomic.Uint64
 	// results
@@ -187,6 +191,10 @@ func (c *Controller) onHook(point string, args ...interface{}) {
 		return
 	}
 	gid := curGID()
+	var snap []*Ev
+	if c.PeekOplog && (point == "commit.published" || point == "watch.locked") {
+		snap = peekOplog(c.W.Engine) // the calling goroutine holds e.mutex here
+	}
 	c.mu.Lock()
 	a := c.byGID[gid]
 	if a == nil {
@@ -200,7 +208,7 @@ func (c *Controller) onHook(point string, args ...interface{}) {
 		c.mu.Unlock()
 		return
 	}
-	c.add(Record{Kind: "event", Actor: a.id, Point: point, Args: cp, Parked: true, Op: a.opIdx})
+	c.add(Record{Kind: "event", Actor: a.id, Point: point, Args: cp, Parked: true, Op: a.opIdx, Oplog: snap})
 	a.at = point
 	a.blocked = false
 	atomic.StoreInt32(&a.state, stParked)
@@ -349,13 +357,13 @@ func (c *Controller) options() []Choice {
 	for _, a := range c.actors[1:] {
 		switch atomic.LoadInt32(&a.state) {
 		case stParked:
-			out = append(out, Choice{a.id, "go"})
+			out = append(out, Choice{a.id, "go", a.at})
 			if c.AllowStore && a.at == "commit.store" {
-				out = append(out, Choice{a.id, "storeFail"}, Choice{a.id, "storePanic"})
+				out = append(out, Choice{a.id, "storeFail", a.at}, Choice{a.id, "storePanic", a.at})
 			}
 		case stRunning:
-			if c.AllowCancel && a.blocked && a.site == "token" && !a.ctxDead && a.cancel != nil {
-				out = append(out, Choice{a.id, "cancel"})
+			if c.AllowCancel && a.blocked && (a.site == "token" || strings.HasPrefix(a.site, "stream.next:select")) && !a.ctxDead && a.cancel != nil {
+				out = append(out, Choice{a.id, "cancel", a.site})
 			}
 		}
 	}
@@ -568,6 +576,55 @@ func (f *Fixed) Choose(step int, opts []Choice, last Choice) int {
 		return -1
 	}
 	// past the recorded schedule: first plain option
+	for i, o := range opts {
+		if o.Kind == "go" {
+			return i
+		}
+	}
+	return 0
+}
+
+// Directed drives named interleavings: each directive says "run actor A until it is parked at point
+// P" (P == "" or "done": until it cannot be released any more).  When the directives are used up
+// the fallback chooser takes over.
+type Directed struct {
+	Steps []Directive
+	Then  Chooser
+	i     int
+	moved bool
+}
+
+// Directive is one element of a Directed schedule.
+type Directive struct {
+	Actor int
+	Until string
+}
+
+func (d *Directed) Choose(step int, opts []Choice, last Choice) int {
+	for d.i < len(d.Steps) {
+		dv := d.Steps[d.i]
+		idx := -1
+		for i, o := range opts {
+			if o.Actor == dv.Actor && o.Kind == "go" {
+				idx = i
+			}
+		}
+		if idx < 0 {
+			d.i++ // the actor is blocked or done: directive over
+			d.moved = false
+			continue
+		}
+		if d.moved && dv.Until != "" && dv.Until != "done" && opts[idx].At == dv.Until {
+			d.i++
+			d.moved = false
+			continue
+		}
+		d.moved = true // the actor is released at least once per directive
+		return idx
+	}
+	if d.Then != nil {
+		return d.Then.Choose(step, opts, last)
+	}
 	for i, o := range opts {
 		if o.Kind == "go" {
 			return i
